@@ -123,9 +123,15 @@ def run_env(rec: Recorder, label: str, env_config, sched: List[str], max_len: in
                 rec.bind(env.game)
                 rec.reset_return(env.game, obs is not None)
             else:
-                cl = classify(env, rng)
-                pool = [i for i in (cl.get(s) or cl["any"]) if i not in avoid] or [0]
-                a = rng.choice(pool)
+                if isinstance(s, tuple):
+                    # a scripted step (transition tour): ("act", abstract name, action index, hook before the step)
+                    _, s, a, hook = s
+                    if hook is not None:
+                        hook(env.game)
+                else:
+                    cl = classify(env, rng)
+                    pool = [i for i in (cl.get(s) or cl["any"]) if i not in avoid] or [0]
+                    a = rng.choice(pool)
                 trace["stimulus"]["schedule"].append([s, a])
                 rec._e("StepBegin")
                 obs, reward, term, trunc, info = env.step(a)
@@ -256,6 +262,22 @@ def main(tier: str, seed: int) -> int:
         max_len = max(2, sum(1 for s in sched if s != "reset") // 2)
         traces.append(run_env(rec, f"{label}#{i}", cfg, sched, max_len, rng))
         chk.add_case({"s": label, "sched": sched, "i": i})
+    # transition tours of the life-cycle product (spec/Lifecycle.tla): every (power state x component state, action)
+    # edge, i.e. every operation at every reachable state of a node and a service / application / file on it
+    from . import tour
+
+    for facet in ("svc", "app", "fs"):
+        g = tour.graph(facet)
+        eps, st = tour.tour(g, random.Random(seed), episode_len=300)
+        chk.add_mc(f"Lifecycle({facet}, PowDur=2, FixDur=2, RestDur=2)", g["tlc"])
+        chk.cov[f"tour_{facet}"] = st
+        if st["covered"] != st["wanted"]:
+            raise tlc.TLCError(f"tour of Lifecycle/{facet} incomplete: {st}")
+        tcfg, idx = tour.scenario(facet, flatten=(seed % 2 == 1), masking=(seed % 3 == 1))
+        for ei, ep in enumerate(eps):
+            sched = [("act", a, idx[a], (lambda game, f=facet: tour.compromise(game, f)) if a == "red-compromise" else None) for a in ep]
+            traces.append(run_env(rec, f"tour:{facet}#{ei}", tcfg, sched, len(ep) + 5, rng))
+            chk.add_case({"s": f"tour:{facet}", "episode": ei, "first": ep[:12], "len": len(ep)})
     # agent-free network examples through PrimaiteGame.step()
     for name in ("basic_lan_network_example.yaml", "client_server_p2p_network_example.yaml", "multi_lan_internet_network_example.yaml"):
         traces.append(run_game(rec, name, scenarios.shipped(name), 5 if tier == "quick" else 30))
